@@ -3273,7 +3273,16 @@ class QuicConnection:
             handler=self._on_ack_delivery,
             handler_args=(space, space.largest_received_packet),
         )
-        ranges = push_ack_frame(buf, space.ack_queue, ack_delay_encoded)
+        # Only write as many ranges as the packet can hold: a range needs at
+        # most two 8-byte variable-length integers.
+        ranges = push_ack_frame(
+            buf,
+            space.ack_queue,
+            ack_delay_encoded,
+            max_ranges=1
+            + max(0, builder.remaining_buffer_space - ACK_FRAME_CAPACITY)
+            // (2 * UINT_VAR_MAX_SIZE),
+        )
         space.ack_at = None
 
         # log frame
